@@ -63,6 +63,23 @@ def _is_observer_of_shutdown_subject(ref, nodes, preds, expected):
     return bool(nd["repeat"]) and any(nodes[p]["stage"] == nd["stage"] and expected[p] == SHUTDOWN for p in preds[ref])
 
 
+def _explained_by_observer_finding(W, script, nodes, preds, expected, actual, in_run_stages, allow_shutdown=False):
+    """True when every difference between actual and rule states follows from repeating components that ended
+    'finished' although a same-stage producer ended shut down (the open known finding) - including its downstream
+    consequences (their consumers then are not shut down either)."""
+    forced = {r: FINISHED for r in in_run_stages
+              if actual[r] == FINISHED and expected[r] == SHUTDOWN
+              and _is_observer_of_shutdown_subject(r, nodes, preds, expected)}
+    if not forced:
+        return False
+    alt = wfcase.rule_states(W, script, force=forced)
+    for r in in_run_stages:
+        if actual[r] == alt[r] or (allow_shutdown and actual[r] == SHUTDOWN):
+            continue
+        return False
+    return True
+
+
 def evaluate(case, res, mon, sched_name):
     """Oracles (1)-(4) for one execution."""
     W, script = case["W"], case["script"]
@@ -91,8 +108,7 @@ def evaluate(case, res, mon, sched_name):
     # only nodes that can actually be reached (no failed/shutdown ancestor) exit unrecoverably in every ordering
     if not unrecoverable:
         bad = {r: (res.states[r], expected[r]) for r in in_run_stages if res.states[r] != expected[r]}
-        if bad and all(_is_observer_of_shutdown_subject(r, nodes, preds, expected) and v == (FINISHED, SHUTDOWN)
-                       for r, v in bad.items()):
+        if bad and _explained_by_observer_finding(W, script, nodes, preds, expected, res.states, in_run_stages):
             raise Violation("observer-of-shutdown-subject-finishes",
                             "[%s] repeating component(s) %s end 'finished' although a same-stage producer ended "
                             "shut down (rules: consumers of shut-down producers are shut down); script %s" % (
@@ -117,8 +133,8 @@ def evaluate(case, res, mon, sched_name):
                         "[%s] failed=%s outcomes=%s" % (sched_name, failed, res.stage_outcomes))
     bad = {r: (res.states[r], expected[r]) for r in in_run_stages
            if res.states[r] not in (expected[r], SHUTDOWN)}
-    if bad and all(_is_observer_of_shutdown_subject(r, nodes, preds, expected) and v == (FINISHED, SHUTDOWN)
-                   for r, v in bad.items()):
+    if bad and _explained_by_observer_finding(W, script, nodes, preds, expected, res.states, in_run_stages,
+                                              allow_shutdown=True):
         raise Violation("observer-of-shutdown-subject-finishes",
                         "[%s] repeating component(s) %s end 'finished' although a same-stage producer ended shut down; "
                         "script %s" % (sched_name, sorted(bad), script))
